@@ -48,6 +48,10 @@ def valOfTok (s : String) : Option (Cell Float) :=
   else if s.startsWith "i:" then (String.ofList (s.toList.drop 2)).toInt?.map (fun i => .present (.int i))
   else if s.startsWith "f:" then (floatOfTok s).map (fun x => .present (.num x))
   else if s.startsWith "s:" then (unhex (String.ofList (s.toList.drop 2))).map (fun b => .present (.str b))
+  -- a list / a nested map: an opaque non-numeric value, equal to another one iff deeply equal (same payload); carried as a
+  -- string no real string can be (leading U+0001)
+  else if s.startsWith "L:" then (unhex (String.ofList (s.toList.drop 2))).map (fun b => .present (.str ([Char.ofNat 1, 'L'] ++ b)))
+  else if s.startsWith "P:" then (unhex (String.ofList (s.toList.drop 2))).map (fun b => .present (.str ([Char.ofNat 1, 'P'] ++ b)))
   else none
 
 def keyOfTok (s : String) : Option KVal :=
@@ -64,7 +68,10 @@ def valTok : Val Float → String
   | .null => "n"
   | .int i => s!"i:{i}"
   | .num x => floatTok x
-  | .str s => "s:" ++ hex s
+  | .str s => match s with
+    | c :: 'L' :: rest => if c == Char.ofNat 1 then "L:" ++ hex rest else "s:" ++ hex s
+    | c :: 'P' :: rest => if c == Char.ofNat 1 then "P:" ++ hex rest else "s:" ++ hex s
+    | _ => "s:" ++ hex s
   | .bool b => boolTok b
 
 def splitOn (c : Char) (s : String) : List String := (s.splitOn (String.singleton c))
